@@ -8,6 +8,7 @@ import (
 	"os"
 	"sort"
 	"strings"
+	"sync"
 
 	"golang.org/x/tools/go/packages"
 	"golang.org/x/tools/go/ssa"
@@ -115,10 +116,14 @@ func (w *World) funcByRel(rel string) *ssa.Function {
 	return w.Funcs[rel]
 }
 
+var lineMu sync.Mutex
+
 func (w *World) srcLine(pos token.Pos) string {
 	if !pos.IsValid() {
 		return ""
 	}
+	lineMu.Lock()
+	defer lineMu.Unlock()
 	p := w.Fset.Position(pos)
 	ls, ok := w.lines[p.Filename]
 	if !ok {
